@@ -16,7 +16,8 @@ BUDGET = {"quick": 48, "thorough": 600}
 MIN_NONTRIVIAL = {"quick": 150, "thorough": 3000}
 REQUIRED_HOOKS = ["schedule", "scheduling-point", "switch-inside-library-code", "stress-evaluation", "single-preemption-schedule"]
 RULE = (
-    "2-4 threads each create their own Environment and program (runner mixes: all compiled, all interpreted, mixed) and evaluate their own bindings; every "
+    "2-4 threads each create their own Environment and program (runner mixes: all compiled, all interpreted, mixed; different expression texts, or the same text "
+    "in every thread) and evaluate their own bindings; every "
     "per-thread outcome is compared with the outcome of the same call run alone (computed single-threaded beforehand). Exploration: (1) a deterministic "
     "cooperative scheduler driven by sys.monitoring LINE events on src/celpy/*.py and the transpiler's '<string>' code -- (a) single preemption: thread A is paused at "
     "line-point i of its run (construction and evaluation phases), thread B runs to completion, A resumes, for a stride of i covering A's whole run; (b) PCT-style "
@@ -151,6 +152,8 @@ def stress(acc, rnd, seconds, nthreads=4):
             rounds += 1
             mix = rnd.choice(["CCCC", "IIII", "CICI", "CCI", "CC", "II", "CI"])[:nthreads]
             specs = [(r, rnd.choice(PROGRAMS)) for r in mix]
+            if rounds % 3 == 0:
+                specs = [(r, specs[0][1]) for r in mix]
             reps = 40
             solos, sinks, threads = [], [], []
             for j, (runner, prog) in enumerate(specs):
@@ -196,6 +199,8 @@ def run(ctx):
     for pi in range(npairs):
         ra, rb = pairs[(pi + ctx.worker) % len(pairs)]
         pa, pb = rnd.choice(PROGRAMS), rnd.choice(PROGRAMS)
+        if pi % 3 == 2:
+            pb = pa  # a pool of threads evaluating the same expression text (own environments, different bindings)
         n_a = ex.count_points(ra, pa)
         if n_a == 0:
             acc.inconclusive.append("no scheduling points observed in a solo run")
@@ -222,6 +227,8 @@ def run(ctx):
         nth = rnd.choice([2, 2, 3, 4])
         mix = rnd.choice(["CCCC", "IIII", "CICI", "ICCI"])[:nth]
         specs = [(r, rnd.choice(PROGRAMS)) for r in mix]
+        if j % 4 == 3:
+            specs = [(r, specs[0][1]) for r in mix]  # same expression text in every thread
         if j % 2 == 0:
             total = rnd.randint(2000, 12000)
             cps = sorted(rnd.randint(1, total) for _ in range(rnd.choice([2, 3])))
